@@ -109,12 +109,15 @@ def legs(tier, for_replay=False):
         t2 = t2 + [[2, list(p)] for p in itertools.product((0, 1, 2, 5), repeat=3)]
     # four-gate programs: the shortest in which a gate sinks into a NON-first layer next to another gate and a later gate
     # overlaps only the sunk one (N=2: XZ(0,1), Y(1), H(0), bmap(0); N=3: XZ(0,1), X(2), H(0), bmap(1,2))
-    t4 = [[2, list(p)] for p in itertools.product((0, 1, 2, 7), repeat=4)] + [[3, list(p)] for p in itertools.product((0, 1, 4, 7), repeat=4)]
+    if quick:     # all orders of the four letters and everything that starts with the two-qubit gate (82 programs per N); thorough: all 256
+        t4 = [[N_, list(p)] for N_, sub in ((2, (0, 1, 2, 7)), (3, (0, 1, 4, 7))) for p in sorted(set(itertools.permutations(sub)) | {(1,) + q for q in itertools.product(sub, repeat=3)})]
+    else:
+        t4 = [[2, list(p)] for p in itertools.product((0, 1, 2, 7), repeat=4)] + [[3, list(p)] for p in itertools.product((0, 1, 4, 7), repeat=4)]
     if not quick:
         t4 += [[3, list(p)] for p in itertools.product((1, 3, 4, 5, 7), repeat=4)]
     out.append(Leg('torch_programs_len4', fn_torch_programs, t4, chunk=2, timeout=3000,
-                   bound='torchclifford: all 4-gate programs over the 4-letter sub-alphabets (0,1,2,7) at N=2 and (0,1,4,7) at N=3 (one two-qubit gate, '
-                         'single-qubit gates on different wires, a backward-map gate)%s' % ('' if quick else '; N=3 also over the 5 letters (1,3,4,5,7)')))
+                   bound='torchclifford: 4-gate programs over the 4-letter sub-alphabets (0,1,2,7) at N=2 and (0,1,4,7) at N=3: %s (one two-qubit gate, '
+                         'single-qubit gates on different wires, a backward-map gate)%s' % ('per N the 82 programs that are a permutation of the four letters or start with the two-qubit gate' if quick else 'all 256 per N', '' if quick else '; N=3 also over the 5 letters (1,3,4,5,7)')))
     out.append(Leg('torch_programs', fn_torch_programs, t2 + t3, chunk=2, timeout=3000,
                    bound='torchclifford: all programs of length <= %d over 8 (N=2) / 9 (N=3) letters; uncompiled / copy / composed; '
                          'compile-based configurations attempted and reported when they raise' % (2 if quick else 3)))
